@@ -99,10 +99,10 @@ def main(tier):
             c.known_hit("spx_consume_multiline_footnote_ref", {"doc": hx(md), "opts": o, "at": loc})
         else:
             c.violation("parse_document panics: " + detail[:200], {"opts": o, "md": hx(md), "line": line})
-    layerc.blocks(c, tier, 0.15 if tier == "quick" else 0.1)
-    layerc.inlines(c, tier, 0.15 if tier == "quick" else 0.1, on_impl_panic=inl_panic)
+    layerc.blocks(c, tier, 0.1 if tier == "quick" else 0.1)
+    layerc.inlines(c, tier, 0.1 if tier == "quick" else 0.1, on_impl_panic=inl_panic)
     # the whole parser as ONE function (Model/Parse.v; panic for panic: the known C01-a panic is reproduced at the same site)
-    layerc.whole(c, tier, 0.15 if tier == "quick" else 0.05, proofs=False)
+    layerc.whole(c, tier, 0.1 if tier == "quick" else 0.05, proofs=False)
     fams = families(rng, tier)
     osets = option_sets(rng, tier)
     cases = []
